@@ -458,9 +458,10 @@ pub fn run(cfg: &Cfg) -> Result<Outcome, String> {
         // (2) attribution
         let m = cx.budget(40_000, 1_000_000);
         for _ in 0..m {
-            let p = match cx.rng.below(4) {
-                0 => gen::castle_case(&mut cx.rng),
-                1 => gen::ep_case(&mut cx.rng),
+            let p = match cx.rng.below(8) {
+                0 | 1 => gen::castle_case(&mut cx.rng),
+                2 | 3 => gen::ep_case(&mut cx.rng),
+                4 => gen::dense_fragmented_case(&mut cx.rng),
                 _ => gen::sound_random(&mut cx.rng),
             };
             if p.structurally_sound().is_err() {
